@@ -427,6 +427,8 @@ def run_check(prop: str, tier: str) -> int:
         print(f"error: no check registered for {prop}")
         return 2
     cd = reg[prop]
+    if tier == "thorough":
+        os.environ["VERIF_DEEP"] = "1"  # inherited by the pool workers, their children and the resample process
     plan = _plan(cd, tier)
     nworkers = _workers()
     wall_cap = float(
